@@ -522,7 +522,8 @@ class BlockUploadStream(io.RawIOBase):
         if res_command & BLOCK_SIZE_SPECIFIED:
             self.size, = struct.unpack_from("<L", response, 4)
             logger.debug("Size is %d bytes", self.size)
-        self.crc_supported = bool(res_command & CRC_SUPPORTED)
+        # A CRC is only used when both sides have declared their support
+        self.crc_supported = bool(request_crc_support and res_command & CRC_SUPPORTED)
         # Start upload
         request = bytearray(8)
         request[0] = REQUEST_BLOCK_UPLOAD | START_BLOCK_UPLOAD
@@ -703,7 +704,8 @@ class BlockDownloadStream(io.RawIOBase):
                 "on the same SDO channel?")
         self._blksize, = struct.unpack_from("B", response, 4)
         logger.debug("Server requested a block size of %d", self._blksize)
-        self.crc_supported = bool(res_command & CRC_SUPPORTED)
+        # A CRC is only used when both sides have declared their support
+        self.crc_supported = bool(request_crc_support and res_command & CRC_SUPPORTED)
         self._error = False
 
     def write(self, b):
